@@ -50,7 +50,7 @@ func (c04) Runs(t Tier) int {
 }
 func (c04) RecordWidths() map[string]int { return map[string]int{"ops": 4} }
 func (c04) RequiredProbes() []string {
-	return []string{"seek-on-boundary", "seek-end-relative-on-boundary", "read-crosses-interior-boundary", "read-at-eof", "negative-seek", "readers-interleaved-mid-chunk", "seek-past-end", "dedup-dag", "depth>=3", "node-asbytes-mid-history", "reader-replaced-mid-history"}
+	return []string{"seek-on-boundary", "seek-end-relative-on-boundary", "read-crosses-interior-boundary", "read-at-eof", "negative-seek", "readers-interleaved-mid-chunk", "seek-past-end", "dedup-dag", "depth>=3", "node-asbytes-mid-history", "linksystem-with-node-reifier", "reader-replaced-mid-history"}
 }
 
 type c04Op struct {
@@ -115,6 +115,7 @@ func (c04) Run(ts *tape.Set, tier Tier) *Result {
 	}
 	nOps := 1 + shape.Intn(maxOps)
 	secondNode := shape.Intn(3) == 2
+	nodeReifier := shape.Intn(3) == 2
 
 	st := store.New()
 	root, _, err := gen.WriteFile(st, spec)
@@ -140,7 +141,10 @@ func (c04) Run(ts *tape.Set, tier Tier) *Result {
 	}
 
 	st.Frag = fragFn(fragSeed, fragMode)
-	w := world.New(st, false)
+	w := newWorld(st, false, nodeReifier)
+	if nodeReifier {
+		res.probe("linksystem-with-node-reifier")
+	}
 
 	type rd struct {
 		rs       io.ReadSeeker
